@@ -1,5 +1,7 @@
 import Driver.Util
 import Driver.Mac
+import Driver.Dev
+import Driver.Nb
 /-! Suite C20: histories with `persist` events (identity on the model) and mutated documents
 (the serde layer is not modelled: the harness' verdict on the implementation stands alone). -/
 namespace Driver.C20
@@ -8,6 +10,9 @@ def handle (ws : List String) : String :=
   match ws with
   | "mac" :: rest => s!"{Driver.Mac.run rest} ## oracle=ok|-"
   | "doc" :: _ => "doc-handled ## oracle=ok|-"
+  -- a device constructed around / handed a restored session (`sess` events of the front-ends)
+  | "nbdev" :: rest => s!"{Driver.Nb.run rest} ## oracle=ok|-"
+  | "adev" :: rest => s!"{Driver.Dev.run rest} ## oracle=ok|-"
   | _ => "bad-op"
 
 end Driver.C20
